@@ -134,7 +134,8 @@ class Realizer:
   def __init__(self, heap, buildable_types=None, fn_for=None):
     self.heap = heap
     self.objs = {}
-    self.types = buildable_types or {'config': fdl.Config, 'partial': fdl.Partial}
+    self.types = buildable_types or {'config': fdl.Config, 'partial': fdl.Partial,
+                                     'argfactory': fdl.ArgFactory}
     self.fn_for = fn_for or (lambda i, o: fn_obj(o['fn']))
 
   def val(self, v):
@@ -148,7 +149,7 @@ class Realizer:
     o = self.heap[i - 1]
     k = o['k']
     items = o['items']
-    if k in ('config', 'partial'):
+    if k in ('config', 'partial', 'argfactory'):
       kwargs = {slot_name(it['key']): self.val(it['val']) for it in items if it['val'] != 0}
       r = self.types[k](self.fn_for(i, o), **kwargs)
       for it in items:
